@@ -19,11 +19,14 @@ import (
 	"testing"
 
 	sdkmath "cosmossdk.io/math"
+	"github.com/cometbft/cometbft/crypto/ed25519"
+	codectypes "github.com/cosmos/cosmos-sdk/codec/types"
+	cryptocodec "github.com/cosmos/cosmos-sdk/crypto/codec"
+	stakingtypes "github.com/cosmos/cosmos-sdk/x/staking/types"
 	sdk "github.com/cosmos/cosmos-sdk/types"
 	"github.com/ethereum/go-ethereum/common"
 	"github.com/onsi/ginkgo/v2"
 	"github.com/palomachain/paloma/v2/tests/integration/helper"
-	"github.com/palomachain/paloma/v2/testutil"
 	utilkeeper "github.com/palomachain/paloma/v2/util/keeper"
 	"github.com/palomachain/paloma/v2/verifharness/emit"
 	consensustypes "github.com/palomachain/paloma/v2/x/consensus/types"
@@ -122,12 +125,28 @@ func attestedCase(t *testing.T, run *emit.Run, r *rand.Rand) {
 	must(f.EvmKeeper.ActivateChainReferenceID(ctx, attChain, &evmtypes.SmartContract{Id: 123}, "addr", []byte("abc")))
 
 	nv := 3 + r.Intn(5)
-	vals := testutil.GenValidators(nv, nv*1000)
+	// validators derived from run.Rng only (addresses and keys decide the snapshot order)
+	vals := make([]stakingtypes.Validator, nv)
 	equal := r.Intn(2) == 0
 	ops := map[string]int{} // operator -> id (snapshot order, set below)
 	for i := range vals {
+		secret := make([]byte, 32)
+		r.Read(secret)
+		protoPK, err := cryptocodec.FromCmtPubKeyInterface(ed25519.GenPrivKeyFromSecret(secret).PubKey())
+		must(err)
+		pkAny, err := codectypes.NewAnyWithValue(protoPK)
+		must(err)
+		opAddr := make([]byte, 20)
+		r.Read(opAddr)
+		power := int64(1000)
 		if !equal {
-			vals[i].Tokens = sdk.TokensFromConsensusPower(int64(1+r.Intn(9)), sdk.DefaultPowerReduction)
+			power = int64(1 + r.Intn(9))
+		}
+		vals[i] = stakingtypes.Validator{
+			OperatorAddress: sdk.ValAddress(opAddr).String(),
+			Tokens:          sdk.TokensFromConsensusPower(power, sdk.DefaultPowerReduction),
+			Status:          stakingtypes.Bonded,
+			ConsensusPubkey: pkAny,
 		}
 		must(f.StakingKeeper.SetValidator(ctx, vals[i]))
 		op, err := utilkeeper.ValAddressFromBech32(f.EvmKeeper.AddressCodec, vals[i].GetOperator())
@@ -288,39 +307,43 @@ func attestedCase(t *testing.T, run *emit.Run, r *rand.Rand) {
 		trace = append(trace, "process -> removed="+strconv.FormatBool(removed))
 		opItems = append(opItems, "C04.AProcess "+got)
 		run.Count("attested-process", map[bool]string{true: "removed", false: "stays"}[removed])
-		switch {
-		case removed && p == nil:
-			id := "C04:message-removed-without-two-thirds-on-fields"
-			what := "a " + sub + " request was declared answered and removed although no answer is backed, field by field, by 2/3 of the snapshot shares"
+		violate := func(id, what string) {
+			// the two weak encodings of the source as it is pool different answers: every consequence of that
+			// (removal without two thirds, the pooled sibling applied instead of the agreed answer) is that finding
 			if k := weak(); k != "" {
 				id, what = k, what+" ["+k+"]"
 			}
 			run.Violate(id, what, replay())
+		}
+		switch {
+		case removed && p == nil:
+			violate("C04:message-removed-without-two-thirds-on-fields",
+				"a "+sub+" request was declared answered and removed although no answer is backed, field by field, by 2/3 of the snapshot shares")
 		case !removed && p != nil:
-			run.Violate("C04:two-thirds-agree-but-message-stays", "2/3 of the snapshot shares submitted the same answer but the "+sub+" request stays queued", replay())
+			violate("C04:two-thirds-agree-but-message-stays", "2/3 of the snapshot shares submitted the same answer but the "+sub+" request stays queued")
 		}
 		// effect
 		if isRef {
 			h, s := refNow()
 			if !removed && (h != 123 || s != "0x1234") {
-				run.Violate("C04:effect-applied-without-removal", fmt.Sprintf("reference block changed to %d/%q while the request is still queued", h, s), replay())
+				violate("C04:effect-applied-without-removal", fmt.Sprintf("reference block changed to %d/%q while the request is still queued", h, s))
 			}
 			if removed && p != nil {
 				rp := p.(*evmtypes.ReferenceBlockAttestationRes)
 				if rp.BlockHeight != h || rp.BlockHash != s {
-					run.Violate("C04:applied-effect-is-not-the-agreed-answer", fmt.Sprintf("reference block is %d/%q, the agreed answer is %s", h, s, describe(p)), replay())
+					violate("C04:applied-effect-is-not-the-agreed-answer", fmt.Sprintf("reference block is %d/%q, the agreed answer is %s", h, s, describe(p)))
 				}
 			}
 		} else {
 			now := balNow()
 			for i, b := range now {
 				if !removed && b != "" {
-					run.Violate("C04:effect-applied-without-removal", fmt.Sprintf("balance %q recorded while the request is still queued", b), replay())
+					violate("C04:effect-applied-without-removal", fmt.Sprintf("balance %q recorded while the request is still queued", b))
 				}
 				if removed && p != nil {
 					want, ok := new(big.Int).SetString(p.(*evmtypes.ValidatorBalancesAttestationRes).Balances[i], 10)
 					if ok && want.String() != b {
-						run.Violate("C04:applied-effect-is-not-the-agreed-answer", fmt.Sprintf("balance %d recorded as %q, the agreed answer says %s", i, b, want), replay())
+						violate("C04:applied-effect-is-not-the-agreed-answer", fmt.Sprintf("balance %d recorded as %q, the agreed answer says %s", i, b, want))
 					}
 				}
 			}
